@@ -56,6 +56,7 @@ pub const HEADER_OFFSET: usize = 32;      // size_of::<HeaderInner>() (repr(C): 
 // ---- the layer above: raw / compressed import_with ----
 #[verifier::external_body] pub struct PagesT { _p: core::marker::PhantomData<u8> }
 impl PagesT {
+    pub uninterp spec fn count_v(&self) -> usize;
     // Pages::import(db, "<name>_pages"): creates the page-table region when it does not exist -- an effect.
     // C13: only for a vector whose data region carries the header being asked for (i.e. after the refusable base import succeeded)
     #[verifier::external_body]
